@@ -114,6 +114,16 @@ class LayoutFold:
                 self.fails += need_eq0(st, pre.segs[0].lo - self.cursor,
                                        'data pending at loop entry does not start where emission stopped', e.node)
             self.cursor = g.segs[0].lo
+            rk = ('attr', 'remaining_chars')
+            gr = e.data['gen'].get(rk)
+            if isinstance(gr, IntV):
+                # the loop body updates the free-space counter: relational invariant fill == 1012 - remaining_chars
+                pr = e.data['pre'].get(rk)
+                if isinstance(pr, IntV):
+                    self.fails += need_eq0(st, self.fill + pr.lin - PAYLOAD, 'fill + remaining_chars != 1012 at loop entry', e.node)
+                self.fill = Lin.const(PAYLOAD) - gr.lin
+                self.head_fill[id(e.node)] = 'relational'
+                return
             cf = st.canon(self.fill)
             if not cf.is_const():
                 self.fails.append(soft(f'fill at loop head is not a constant ({cf})', e.node))
@@ -134,7 +144,15 @@ class LayoutFold:
             else:
                 self.fails.append(soft('pending data after the loop body has an unexpected shape', e.node))
             hf = self.head_fill.get(id(e.node))
-            if hf is not None:
+            if hf == 'relational':
+                pr = e.data['post'].get(('attr', 'remaining_chars'))
+                if not isinstance(pr, IntV):
+                    self.fails.append(soft('remaining_chars is not an integer at the back edge', e.node))
+                else:
+                    self.fails += need_eq0(st, self.fill + pr.lin - PAYLOAD, 'a loop iteration does not restore fill + remaining_chars == 1012', e.node)
+                    self.fails += need_ge0(st, pr.lin, 'remaining_chars may become negative inside the loop', e.node)
+                    self.fails += need_ge0(st, Lin.const(PAYLOAD) - pr.lin, 'remaining_chars may exceed 1012 inside the loop', e.node)
+            elif hf is not None:
                 self.fails += need_eq0(st, self.fill - hf, f'block fill is not restored by a loop iteration '
                                                            f'({st.canon(self.fill)} vs {hf} at loop head)', e.node)
 
@@ -185,7 +203,12 @@ def check(prog, res, tier):
         it.user['b'] = b
         it.call_function(wfi, [b], {}, self_obj=obj)
         return obj
-    runs_w = Runs(prog, entry_w, res=res)
+    def loop_head(it, st, pre, gen):
+        g = gen.get(('attr', 'remaining_chars'))
+        if isinstance(g, IntV) and it.stack and it.stack[-1].startswith('mciipm.Block1014'):
+            it.store.assume_ge0(g.lin)
+            it.store.assume_ge0(Lin.const(PAYLOAD) - g.lin)
+    runs_w = Runs(prog, entry_w, res=res, hooks={'loop_head': loop_head})
 
     def fold(p):
         u = p.interp.user
